@@ -53,6 +53,7 @@ type fedSpec struct {
 	// condition. Off by default (abstract mode 3 = C01 with the flag "ifacefields"): the planner
 	// mishandles such selections in several ways (DESIGN.md 12.7), only one of which is classified.
 	IfaceFieldsInOps bool
+	SharedKeysInOps  bool
 	NSub             int
 	Types            []*fedType
 	Roots            []*fedField
@@ -101,6 +102,11 @@ func genFedSpec(W *core.Tape, rich bool, abstractMode int) *fedSpec {
 	s := &fedSpec{by: map[string]*fedType{}}
 	s.Abstract = abstractMode > 0 && W.Prob(0.45)
 	s.IfaceFieldsInOps = abstractMode == 3
+	// SharedKeysInOps: fragments on different member types may use one response key for composite
+	// fields (and the "mirror" step). Only the C01 world does: the planner defect this exposes
+	// (DESIGN.md 12.3) makes requests and data of such operations schedule dependent, which the
+	// other worlds could only report as one more known finding.
+	s.SharedKeysInOps = abstractMode == 1 || abstractMode == 3
 	nested := abstractMode > 0 // lists of lists come with the same switch as the abstract types
 	s.Seed = uint64(W.Intn(1 << 16))
 	s.NSub = 2 + W.Weighted([]int{3, 3, 2})
@@ -208,7 +214,7 @@ func genFedSpec(W *core.Tape, rich bool, abstractMode int) *fedSpec {
 			e.Fields = append(e.Fields, f)
 		}
 	}
-	if s.Abstract && W.Prob(0.6) {
+	if s.Abstract && s.IfaceFieldsInOps && W.Prob(0.6) {
 		// a field every entity has (declared on the interface Node too): a reference to one entity
 		// type or a String; each entity's copy may live in a different subgraph
 		typ := gTypeRef{Name: "String"}
